@@ -5,7 +5,10 @@
 // extractor (extractor.New with one worker, Extract = the key), for every
 // pair of group values of a bounded set. Every match is evaluated many times,
 // also with name tables that hold the same names inserted in a different
-// order, and all texts must be identical.
+// order, and all texts must be identical. size.go adds size sweeps and a
+// one-source history family, sources.go feeds one extractor from several
+// sources (line numbers that repeat, sparse matches, ignore sets, several views
+// in one key).
 package main
 
 import (
@@ -466,9 +469,17 @@ func worker(w *runner.W) {
 		}
 	}
 	sizeWorker(w, &caseNo)
+	if w.Param("sources", "on") != "off" { // development aid: -p sources=off times the other families alone
+		sourcesWorker(w, &caseNo)
+	}
 }
 
 func replay(w *runner.W, raw json.RawMessage) {
+	var rc srcCase
+	if err := json.Unmarshal(raw, &rc); err == nil && rc.Family == "sources" {
+		replaySources(w, rc)
+		return
+	}
 	var sc sCase
 	if err := json.Unmarshal(raw, &sc); err == nil && sc.Family != "" {
 		replaySize(w, sc)
@@ -500,7 +511,7 @@ func main() {
 				cn = append(cn, fmt.Sprintf("%s %q", c.Name, c.Pattern))
 			}
 			return fmt.Sprintf("matches of the line v1|v2 by %d matcher configurations (%s) x keys {.} {#} {.#} evaluated by the real extractor (one worker) x every pair (v1, v2) over V%d in which at least one value is in V%d or both are in V%d, where Vn = all strings of up to n symbols over %q plus the special values %q (|V1|=%d, |V2|=%d, |V3|=%d). Every match is evaluated at least 64 times (2 named groups: 64 times with the matcher's name table, 96 times each with name tables holding the same names inserted in ascending and in descending order) and all texts must be identical; the first text is validated and decoded with encoding/json and every member compared with the captured text. One evaluation = one (configuration, key, v1, v2) or one line of a size/history unit; non-trivial = the text has at least one member.",
-				len(configs), strings.Join(cn, ", "), b.big, b.small, b.square, alphabet, specials, len(values(1)), len(values(2)), len(values(3))) + sizeRule(tier != "thorough")
+				len(configs), strings.Join(cn, ", "), b.big, b.small, b.square, alphabet, specials, len(values(1)), len(values(2)), len(values(3))) + sizeRule(tier != "thorough") + sourcesRule(tier != "thorough")
 		},
 		Assumptions: func(string) []string {
 			return []string{
@@ -508,6 +519,7 @@ func main() {
 				"a member may be a JSON number only if the capture has the shape [+-]digits[.digits][e[+-]digits] and exactly the same decimal value (digit strings and math/big exponents, no rounding at any size); a boolean only if the capture is true/false in any ASCII letter case",
 				"a member name must decode to the group name; a group name that is not valid UTF-8 (dissect names may hold any byte but '}') may decode with U+FFFD like a value",
 				"size and history families: the captures of a line are known by construction (the patterns split on a delimiter that the values do not contain); a fresh extractor (extractor.New with one worker) is a fresh compiled key, a fresh matcher instance and a fresh expression context",
+				"sources family: an InputBatch may carry any source name and any BatchStart, so two sources with one name (a file named twice, a file re-opened after it was replaced) and therefore the same source name and line number with another text are part of the input space; whether a line is ignored is not C16's business, only that the long-lived extractor and a fresh one agree on it; a match that comes back under a (source, number, text) that was never sent is not judged",
 				"an empty capture may be left out of the object or be an empty string; every non-empty capture the key asks for must be a member ({.}: named groups, {#}: numbered groups incl. 0, {.#}: both) and no other member may appear",
 				"Go's map iteration order cannot be chosen from outside; a difference between evaluations is looked for with 64..256 evaluations per match and tables of different insertion history. With 2 names in one bucket each single iteration starts at the second entry with probability 1/8, so an order-dependent implementation escapes one case with probability < 1e-14 and a whole run (thousands of such cases) never in practice; an implementation that does not depend on map order can never be reported",
 			}
